@@ -12,6 +12,7 @@ KIND_MAP = {
     'frame-unknown-callee': ['frame'],
     'returns-dict': ['exception-type'],
     'name-resolves': ['exception-type'],
+    'start-point-interior': ['start-point-validated', 'exception-type'],
 }
 
 
